@@ -16,6 +16,8 @@ def make_settings(over=None):
         elif k == "pskConfigs":
             v = [tuple(bytearray(bytes.fromhex(y)) if i < 2 else y
                        for i, y in enumerate(x)) for x in v]
+        elif k == "dhParams":
+            v = tuple(int(x) for x in v)
         elif k == "dc_sig_algs":
             from tlslite.constants import SignatureScheme
             v = [getattr(SignatureScheme, x) for x in v]
